@@ -187,14 +187,17 @@ func checkShrinkRefusal(p *Prog, r *Report, overhead int64) {
 		if st.Fn.Name == "NewKCP" {
 			continue
 		}
-		fi := st.Fn
-		c := p.CFG(fi)
-		spt, _ := c.PointOf(st.Node)
 		for _, ring := range []string{"snd_queue", "snd_buf"} {
 			fRing := p.Field("KCP", ring)
-			construct := "refusal test over " + ring + " before store(KCP.mss) in " + fi.Name
+			construct := "refusal test over " + ring + " before store(KCP.mss) in " + st.Fn.Name
 			found := false
 			why := "no loop over " + ring + ".ForEach precedes the store"
+			fi := st.Fn
+			var at ast.Node = st.Node
+			lifts := 0
+		retry:
+			c := p.CFG(fi)
+			spt, _ := c.PointOf(at)
 			ast.Inspect(fi.Body, func(n ast.Node) bool {
 				rs, ok := n.(*ast.RangeStmt)
 				if !ok {
@@ -265,6 +268,15 @@ func checkShrinkRefusal(p *Prog, r *Report, overhead int64) {
 			if !found && p.refusesThroughHelper(fi, c, spt, fRing, overhead) {
 				found = true
 			}
+			if !found {
+				// the stores were moved into a helper with a single call site: the refusal test precedes that call
+				if caller, call, okL := p.singleCaller(fi); okL && lifts < 2 {
+					fi, at = caller, call
+					lifts++
+					goto retry
+				}
+			}
+			fi = st.Fn
 			if found {
 				r.ok("C10.M3", fi.Name, p.Pos(st.Node), construct, "every queued segment is tested against the new mss; a longer one makes SetMtu refuse")
 			} else {
@@ -544,6 +556,12 @@ func checkSegmentCreation(p *Prog, r *Report) {
 	newSeg := p.Method("KCP", "newSegment")
 	for _, s := range p.CallsTo(newSeg) {
 		kcp := s.Recv
+		if kcp == nil {
+			// newSegment as a plain function: the segment is created for the caller's control block
+			if sv := p.selfVar(rootFuncInfo(s.Fn)); sv != nil {
+				kcp = tVar(sv)
+			}
+		}
 		mss := p.F(kcp, "KCP", "mss")
 		p.requireFacts(r, "C10.M5", s.Fn, s.Call, "newSegment("+exprString(s.Call.Args[0])+")", le(s.Args[0], mss))
 	}
@@ -623,7 +641,7 @@ func checkSessionAccounting(p *Prog, r *Report) {
 			param, _ = p.Info.Defs[nm].(*types.Var)
 		}
 	}
-	recv := p.recvVar(fi)
+	recv := p.selfVar(fi)
 	hdr := p.F(tVar(recv), "UDPSession", "headerSize")
 	for _, s := range p.CallsTo(setMtu) {
 		if s.Fn != fi {
@@ -642,15 +660,21 @@ func checkSessionAccounting(p *Prog, r *Report) {
 			over bool // the path passed the test mtuLimit < mtu (explicit clamp)
 		}
 		var results []res
-		var walk func(pt Point, val *Term, aead bool, over bool, depth int)
-		walk = func(pt Point, val *Term, aead bool, over bool, depth int) {
+		// env: the symbolic value of every local assigned on the way (the argument may be computed through
+		// temporaries such as a summed overhead)
+		var walk func(pt Point, env map[types.Object]*Term, aead bool, over bool, depth int)
+		walk = func(pt Point, env0 map[types.Object]*Term, aead bool, over bool, depth int) {
 			if depth > 30 {
 				return
+			}
+			env := map[types.Object]*Term{}
+			for k, v := range env0 {
+				env[k] = v
 			}
 			b := pt.B
 			for i := pt.I; i < len(b.Nodes); i++ {
 				if (Point{b, i}) == target {
-					results = append(results, res{val, aead, over})
+					results = append(results, res{env[argVar], aead, over})
 					return
 				}
 				n := b.Nodes[i]
@@ -658,24 +682,42 @@ func checkSessionAccounting(p *Prog, r *Report) {
 				if !ok {
 					continue
 				}
+				vals := make([]*Term, len(as.Lhs))
+				for k := range as.Lhs {
+					if k < len(as.Rhs) && len(as.Lhs) == len(as.Rhs) {
+						vals[k] = normTerm(p.Term(as.Rhs[k]).Subst(env))
+					}
+				}
 				for k, l := range as.Lhs {
 					id, ok := l.(*ast.Ident)
-					if !ok || (p.Info.Uses[id] != argVar && p.Info.Defs[id] != argVar) || k >= len(as.Rhs) {
+					if !ok || vals[k] == nil {
 						continue
 					}
-					rhs := p.Term(as.Rhs[k]).Subst(map[types.Object]*Term{argVar: val})
+					var o types.Object = p.Info.Defs[id]
+					if o == nil {
+						o = p.Info.Uses[id]
+					}
+					lv, isV := o.(*types.Var)
+					if !isV || lv.IsField() || lv.Parent() == p.Types.Scope() {
+						continue
+					}
+					cur, has := env[lv]
+					if !has {
+						cur = tVar(lv)
+					}
 					switch as.Tok {
 					case token.ASSIGN, token.DEFINE:
-						val = rhs
+						env[lv] = vals[k]
 					case token.SUB_ASSIGN:
-						val = sub(val, rhs)
+						env[lv] = sub(cur, vals[k])
 					case token.ADD_ASSIGN:
-						val = add(val, rhs)
+						env[lv] = add(cur, vals[k])
 					default:
-						val = &Term{Op: "unk", Pos: as.Pos()}
+						env[lv] = &Term{Op: "unk", Pos: as.Pos()}
 					}
 				}
 			}
+			val := env[argVar]
 			ct := c.CondTerm(b)
 			for si, sblk := range b.Succs {
 				if !sblk.Live {
@@ -698,22 +740,26 @@ func checkSessionAccounting(p *Prog, r *Report) {
 						}
 					}
 				}
-				v2, o2 := val, over
+				e2, o2 := env, over
 				// explicit clamp: if mtu > mtuLimit { mtu = mtuLimit }
 				if ct != nil {
-					cs := normTerm(ct.Subst(map[types.Object]*Term{argVar: val}))
+					cs := normTerm(ct.Subst(env))
 					if cs.Key() == lt(tConst(mtuLimit), val).Key() {
 						if si == 0 {
 							o2 = true
 						} else {
-							v2 = normTerm(mk("min", tConst(mtuLimit), val)) // val <= mtuLimit here, so val == min(mtuLimit, val)
+							e2 = map[types.Object]*Term{}
+							for k, v := range env {
+								e2[k] = v
+							}
+							e2[argVar] = normTerm(mk("min", tConst(mtuLimit), val)) // val <= mtuLimit here, so val == min(mtuLimit, val)
 						}
 					}
 				}
-				walk(Point{sblk, 0}, v2, a2, o2, depth+1)
+				walk(Point{sblk, 0}, e2, a2, o2, depth+1)
 			}
 		}
-		walk(Point{c.Entry(), 0}, tVar(param), false, false, 0)
+		walk(Point{c.Entry(), 0}, map[types.Object]*Term{argVar: tVar(param)}, false, false, 0)
 		if len(results) == 0 {
 			r.bad("C10.M6", fi.Name, p.Pos(s.Call), "value handed to KCP.SetMtu", "no path reaches the call", "")
 			continue
@@ -933,7 +979,7 @@ func checkOOBBound(p *Prog, r *Report) {
 	so := p.FuncByName("(*UDPSession).SendOOB")
 	get := p.Method("bufferPool", "Get")
 	convSize := p.ConstInt("convSize")
-	recv := p.recvVar(so)
+	recv := p.selfVar(so)
 	kcpMtu := p.F(tFld(tVar(recv), p.Field("UDPSession", "kcp")), "KCP", "mtu")
 	var data *types.Var
 	data = firstByteSliceParam(p, so)
@@ -958,7 +1004,7 @@ func checkOOBBound(p *Prog, r *Report) {
 		r.bad("C10.M8", so.Name, p.Pos(so.Node), "OOB size test", "SendOOB obtains no buffer", "")
 	}
 	gm := p.FuncByName("(*UDPSession).GetOOBMaxSize")
-	grecv := p.recvVar(gm)
+	grecv := p.selfVar(gm)
 	gMtu := p.F(tFld(tVar(grecv), p.Field("UDPSession", "kcp")), "KCP", "mtu")
 	okG := false
 	inspectBody(gm, func(x ast.Node) bool {
